@@ -42,12 +42,14 @@ GROUPS = [
 
 def run(res):
     core.std_proof_coverage(res, "C16")
+    from .. import stream
+    scov = stream.run(res, "C16")
     out, defs, (rc, so, se) = core.gen_and_eval("C16", "c16", HEADER, FOOTER, env={"GOMEMLIMIT": "6GiB"})
     if out is None:
-        res.violation("harness-abort", "the hostile-peer harness did not complete on the current tree (rc=%d): %s" % (rc, se[-800:]),
+        res.violation("harness-abort", "the hostile-peer harness did not complete on the current tree (rc=%d): %s" % (rc, (se[se.find("WATCHDOG"):][:300] if "WATCHDOG" in se else se[-800:])),
                       {"stderr": se[-4000:], "panic": "panic:" in se, "correspondence": "cmd/c16 vs Model/Wire.v"},
-                      found_input=("panic:" in se or "out of memory" in se))
-        res.coverage.update({"evaluations": 0, "distinct_nontrivial": 0, "rule": "harness aborted", "samples": []})
+                      found_input=("panic:" in se or "out of memory" in se or "WATCHDOG" in se))
+        res.coverage.update({"evaluations": 0, "distinct_nontrivial": 0, "rule": "harness aborted", "samples": [], "chunked_stream_scenarios": scov})
         return
     text = open(defs).read()
     total, samples, dist = 0, [], {}
@@ -76,6 +78,7 @@ def run(res):
                 "each with a control PUSH peer on the same PULL socket; stall: 24 silent/partial/garbage/wrong-protocol handshakes then a timed well-behaved connect; "
                 "proto: random and structured bodies injected through mock pipes into all 24 protocol implementations while the application keeps receiving",
     })
+    res.coverage["chunked_stream_scenarios"] = scov
     res.coverage["trusted_base"] = core.COQ_TRUSTED + [
         "hand-written model Model/Wire.v tied by correspondence over real tcp/ipc connections; MAX-RCV-SIZE = 0 ('no limit, trusted peers') is outside the limit theorems",
         "Go runtime memory statistics for the allocation bound",
